@@ -82,6 +82,10 @@ func (p *Provider) Run(ctx context.Context, deps core.ProviderDeps) (err error) 
 		err = p.loadAmmo(ctx)
 		if err == nil {
 			err = p.runPreloaded(ctx)
+			// Reached limit is normal finish, as without preload.
+			if errors.Is(err, decoders.ErrAmmoLimit) || errors.Is(err, decoders.ErrPassLimit) {
+				err = nil
+			}
 		}
 	} else {
 		err = p.runFullScan(ctx)
